@@ -154,6 +154,45 @@ def newRunner (cfg : Cfg) (reg : Registry) (d : Disk) : Open :=
   else if !validateNoVersionDowngrade m.cur reg.target then .downgrade
   else .ok
 
+/-! ### Which error `NewRunner` returns (current tree; runner.go `validateNoOptOut` transcribed with its
+flag list, `validateNoVersionDowngrade`, `errNewerDatabase`) -/
+
+/-- The `for idx := range optOutAttempts.Iter()` loop of `validateNoOptOut`: `acc` is `flagList`
+(the indices whose flag is named, in order); `none` = `return errNewerDatabase` (the first
+attempt is already beyond the registry); an index beyond the registry after at least one named
+flag ends the loop (`break`). -/
+def optOutFlagLoop (count : Nat) : List Nat → List Nat → Option (List Nat)
+  | [], acc => some acc
+  | idx :: rest, acc =>
+    if idx ≥ count then (if acc.isEmpty then none else some acc)
+    else optOutFlagLoop count rest (acc ++ [idx])
+
+/-- What `NewRunner` answers: a runner; `errNewerDatabase`; or "cannot opt out of previously
+enabled migrations: [flags]" with the indices of the migrations whose flags are named. -/
+inductive OpenV | ok | newer | optOut (flags : List Nat)
+  deriving Repr, DecidableEq
+
+/-- `validateNoOptOut(target, lastTarget, flags)` of the current tree, with the error it builds. -/
+def validateNoOptOutV (target last : SV) (count : Nat) : OpenV :=
+  let attempts := SV.diff last target
+  if attempts == 0#64 then .ok
+  else match optOutFlagLoop count (SV.iter attempts) [] with
+    | none => .newer                      -- return errNewerDatabase
+    | some [] => .ok                      -- if len(flagList) == 0 { return nil }
+    | some l => .optOut l
+
+/-- `NewRunner` of the current tree: opt-out validation first, then the downgrade validation. -/
+def newRunnerV (reg : Registry) (d : Disk) : OpenV :=
+  let m := d.metaD
+  match validateNoOptOutV reg.target m.last reg.length with
+  | .ok => if validateNoVersionDowngrade m.cur reg.target then .ok else .newer
+  | e => e
+
+/-- The flag an opt-out error names for migration `i`: `--<name>` of an optional migration,
+`--migration-<i>` for a mandatory one (its `optionalMigrationFlags` slot is empty); `true` = named
+by its flag. -/
+def flagNamed (reg : Registry) (i : Nat) : Bool := (reg[i]?.map Entry.optional).getD false
+
 /-! ## `Run` -/
 
 /-- Class of the error returned by a migration's `Migrate`: none; an error whose chain contains
@@ -182,6 +221,12 @@ structure Env where
   /-- `failAt = k > 0`: the runner write that would be tick `k` fails (disk full, I/O error): nothing
   is written and the error is returned (all three write sites of the runner return it). -/
   failAt : Nat
+  /-- `NewRunner`'s `GetSchemaMetadata` returns an error other than `db.ErrKeyNotFound` (I/O error):
+  `NewRunner` returns it, nothing is validated, nothing is written. -/
+  metaReadFails : Bool
+  /-- `runMigration i`'s `GetIntermediateState` returns an error other than `db.ErrKeyNotFound`:
+  `runMigration` returns it before `Before` is called. -/
+  istReadFails : Nat → Bool
 
 inductive Event
   | metaWrite (m : Meta)
@@ -192,7 +237,7 @@ inductive Event
   | apply (i : Nat)
   deriving Repr, DecidableEq
 
-inductive Result | ok | cancelled | errBefore | errMigrate | errWrite | crashed
+inductive Result | ok | cancelled | errBefore | errMigrate | errWrite | errRead | crashed
   deriving Repr, DecidableEq
 
 structure RunSt where
@@ -211,8 +256,10 @@ def RunSt.writeFails (env : Env) (s : RunSt) : Bool := env.failAt == s.tick + 1
 def runMigration (cfg : Cfg) (env : Env) (last : SV) (i : Nat) (s : RunSt) : RunSt × Option Result :=
   -- GetIntermediateState
   let st0 := s.disk.ist i
-  -- migration.Before(intermediateState)
   if s.dead env then (s, some .crashed) else
+  -- if err != nil && !errors.Is(err, db.ErrKeyNotFound) { return "getting intermediate state" }
+  if env.istReadFails i then (s, some .errRead) else
+  -- migration.Before(intermediateState)
   let s := s.tickEv (.before i st0)
   let b := env.beh i
   if b.beforeFails then (s, some .errBefore) else
@@ -266,12 +313,14 @@ def run (cfg : Cfg) (reg : Registry) (env : Env) (d : Disk) : RunSt × Result :=
   runLoop cfg env target (SV.iter pending) s
 
 /-- One start of the node's migration phase: `NewRunner` then `Run` (node/migration.go). A refused
-database is left untouched. -/
+database is left untouched; so is one whose metadata cannot be read. -/
 structure Start where
   reg : Registry
   env : Env
 
 def start (cfg : Cfg) (d : Disk) (st : Start) : Disk × List Event × Option Result :=
+  -- GetSchemaMetadata fails with an I/O error: "getting schema metadata"
+  if st.env.metaReadFails then (d, [], some .errRead) else
   match newRunner cfg st.reg d with
   | .ok => let (s, r) := run cfg st.reg st.env d; (s.disk, s.log, some r)
   | _ => (d, [], none)
